@@ -7,7 +7,7 @@
 (* says the results and the state must be in exp, the logged values in     *)
 (* obs, and the invariant Conforms compares them.  Nothing is inferred     *)
 (* from the plan; nothing but arguments is taken from the trace.           *)
-EXTENDS ApiSponge, ApiCpp, ApiKdf, ApiHex, ApiByteArray, ApiPrng, ApiMasked, Conc, Json, IOUtils, TLC
+EXTENDS ApiSponge, ApiCpp, ApiKdf, ApiHex, ApiByteArray, ApiPrng, ApiMasked, ApiLeak, Conc, Json, IOUtils, TLC
 
 T == ndJsonDeserialize(IOEnv.TRACE)
 
@@ -532,7 +532,11 @@ TrAsmPermute == IsEv("asm.permute") /\ LET ev == T[l] IN
 TrAsmSelfTest == IsEv("asm.selftest") /\ LET ev == T[l] IN Step(objs, <<1>>, <<ev.ok>>)
 TrGenDiff == IsEv("gen.diff") /\ LET ev == T[l] IN Step(objs, <<1, 1>>, <<ev.generated, ev.equal>>)
 TrElfStack == IsEv("elf.stack") /\ LET ev == T[l] IN Step(objs, <<0>>, <<ev.exec>>)
-AsmNext == TrAsmPermute \/ TrAsmSelfTest \/ TrGenDiff \/ TrElfStack
+\* C11: a keyed call with tainted secrets: no secret-dependent branch or address (memcheck),
+\* and exactly the permutation calls the specification predicts from public lengths
+TrCtCall == IsEv("ct.call") /\ LET ev == T[l]  p == Predicted(ev) IN
+  Step(objs, <<1, 0, IF p = <<"unpredicted">> THEN ev.perm ELSE p, 1>>, <<ev.vg, ev.errors, ev.perm, ev.guard>>)
+AsmNext == TrCtCall \/ TrAsmPermute \/ TrAsmSelfTest \/ TrGenDiff \/ TrElfStack
 
 -----------------------------------------------------------------------------
 Next == TrReset \/ PermNext \/ SpongeNext \/ AeadNext \/ AeadIncNext \/ KdfNext \/ IsapNext \/ PrngNext \/ MiscNext \/ ExtraNext \/ BaNext \/ MaskedNext \/ ToolNext \/ AsmNext
